@@ -15,12 +15,15 @@ func init() {
 		registerExtField2("t2", "mach.emit", "call")
 		registerExtField2("t2", "mach.hook", "call")
 		registerIgnoredCall2("t2", "logf")
+		registerExtMethod2("t2", "sink.Put", "call")
+		registerExtMethod2("t2", "sink.Mode", "read")
+		registerSum2("t2", "shape", []string{"*sq", "*rc"})
 		register2("t2", []string{"sumTo", "find", "countUntil", "nested", "at", "window", "be", "put", "div",
-			"classify", "guarded", "check", "mk", "rangeInt", "lines", "greet", "anyTrue", "ctr.inc", "mach.step"})
+			"classify", "guarded", "check", "mk", "rangeInt", "lines", "greet", "anyTrue", "ctr.inc", "mach.step", "sq.area", "rc.area", "disp.route"})
 	case "bad":
 		registry2 = map[string]*target2{}
 		pkgOrder2 = nil
 		register2("t2", []string{"badWhile", "badParamWrite", "badShadow", "badMap", "badClosure", "badBound",
-			"badAlias", "badString", "badGoto", "badRangeWrite", "badAliasInLoop", "badFuncField"})
+			"badAlias", "badString", "badGoto", "badRangeWrite", "badAliasInLoop", "badFuncField", "badIface"})
 	}
 }
